@@ -102,6 +102,18 @@ def atom_thunks():
     return T
 
 
+def nested_not_thunks(atoms):
+    """~~p, ~~~p, ~(~p & q), ~~(p | q) ...: shapes on which negate/optimize unwrap negations."""
+    out = []
+    for d, a in atoms:
+        out.append((f"~~({d})", lambda a=a: ~~a()))
+        out.append((f"~~~({d})", lambda a=a: ~~~a()))
+    for (d1, a), (d2, b) in zip(atoms, atoms[1:]):
+        out.append((f"~(~({d1}) & ({d2}))", lambda a=a, b=b: ~(~a() & b())))
+        out.append((f"~~(({d1}) | ({d2}))", lambda a=a, b=b: ~~(a() | b())))
+    return out
+
+
 def composite_thunks(rng, atoms, n):
     out = []
     for _ in range(n):
@@ -120,4 +132,4 @@ def composite_thunks(rng, atoms, n):
     return out
 
 
-PROBE_VALUES = [0, 0.5, 1, 1.5, 2, 2.5, 3, 3.5, True, False, None, "a", "", "foo", "foobar", "bar", [], [1], [1, 2], (1,), (1, "a"), ("a", 1), (), {1}, {1, 2}, set(), {"a": 1}, {"a": 1, "b": "x"}, {}, {"b": 2}, {1: 1}]
+PROBE_VALUES = [[0], [None], [""], [[]], (0,), {0}, [0, 0], (None, 0), [False], 0, 0.5, 1, 1.5, 2, 2.5, 3, 3.5, True, False, None, "a", "", "foo", "foobar", "bar", [], [1], [1, 2], (1,), (1, "a"), ("a", 1), (), {1}, {1, 2}, set(), {"a": 1}, {"a": 1, "b": "x"}, {}, {"b": 2}, {1: 1}]
